@@ -86,6 +86,9 @@ STACK_PROPS = {"C14", "C18", "C08"}
 # checks whose property covers a solve: every ?gstrs / sp_?trsv call of their histories is validated against SluSolve (which kernel on which
 # block of L and which part of B, in which order)
 SOLVE_PROPS = {"C01", "C07", "C08", "C12", "C13"}
+# checks whose histories alternate between the library's own dense kernels and the USE_VENDOR_BLAS configuration, and use small 2-D blocking
+# cut-offs in a third of their scripts (the drivers' solve properties; the factorization itself is covered in both configurations by C02)
+VENDOR_PROPS = {"C01", "C07"}
 RHS_SHAPES = ("one", "multi", "multi_pad", "zero")
 
 
@@ -148,6 +151,7 @@ def run_histories(ck, alphabet, depth, count, rng, precs=("d",), threads=(1, 2, 
         ck.violation("enum", "TLC enumerated no history: %s" % r["errors"][:2])
         return
     kw = dict(script_kw or {})
+    kw["twod"] = ck.pid in VENDOR_PROPS
     use_scales = kw.get("scale_for_equil", True) and not kw.get("symmetric")
     sample = covering_sample(hs, count, rng, precs, scales=("none", "row", "col", "both", "colonly", "rowonly") if use_scales else ("none",), shapes=RHS_SHAPES)
     items = []
@@ -164,10 +168,10 @@ def run_histories(ck, alphabet, depth, count, rng, precs=("d",), threads=(1, 2, 
     # every other history runs in the configuration of the repository's own CMake build (USE_VENDOR_BLAS: the supernodal kernels of the
     # factorization and of the solves go to the BLAS -- other branches of 33 source files than with the library's own dense kernels)
     def var_of(i):
-        return "vendor" if (variant == "verif" and i % 2 == 1) else variant
+        return "vendor" if (variant == "verif" and ck.pid in VENDOR_PROPS and i % 2 == 1) else variant
     for p in set(precs):
         api.driver(p, variant)     # build before the parallel phase
-        if variant == "verif":
+        if variant == "verif" and ck.pid in VENDOR_PROPS:
             api.driver(p, "vendor")
     ck.notes["histories_in_the_USE_VENDOR_BLAS_configuration" + tag] = sum(1 for a in items if var_of(a[0]) == "vendor")
     tlc.stage(wd)
